@@ -1,5 +1,6 @@
 SPECIFICATION Spec
 CONSTANTS
+  Isas = {"x64"}
   MaxBlocks = 3
   Templates = {"o23", "jmp", "ret", "call"}
   Layouts = {"one", "split1", "split2", "tail", "head"}
